@@ -165,7 +165,8 @@ THOROUGH_SCENARIOS: dict[str, tuple[list[str], list[str], str | None]] = {
     "bad-refurb-flag": (["src/clean.py", "--no-such-flag"], [], "no-run"),
 }
 STATS_MODES = ["none", "new", "existing", "unwritable", "directory"]
-EXISTING_JUNK = "previous content, not JSON\n"
+# LONGER than any statistics file a run writes: writing FILE means replacing it, not overwriting its beginning
+EXISTING_JUNK = "previous content, not JSON\n" * 20000
 
 
 def make_tree(work: Path) -> bool:
